@@ -4,10 +4,12 @@
 -/
 import Pk.Driver.C17
 import Pk.Driver.Mgr
+import Pk.Driver.C15
 
 def main (args : List String) : IO UInt32 := do
   match args with
   | ["c17"] => Pk.Driver.C17.main; return 0
+  | ["c15"] => Pk.Driver.C15.main; return 0
   | "mgr" :: convs => Pk.Driver.Mgr.main convs; return 0
   | _ =>
     IO.eprintln "usage: pkmodel <c17|...>  (line protocol on stdin/stdout)"
